@@ -36,6 +36,12 @@ pub enum Family {
     Txm,
     /// BufferManager grants against a budget that fits k-1 of k requests
     Buffer,
+    /// Catalog: name↔id dictionaries and index definitions
+    Catalog,
+    /// QueryCache (two LRU caches + counters), capacity 2
+    Cache,
+    /// WalManager: log ∥ log ∥ rotate ∥ sync on one directory, rotation every few records
+    Wal,
 }
 
 #[derive(Clone, Debug, PartialEq, Eq, Serialize, Deserialize)]
@@ -68,6 +74,21 @@ pub enum SOp {
     BufRelease,
     /// resizes the newest grant this thread holds
     BufResize(usize),
+    // --- Catalog --- (name index; 0 = label, 1 = property key, 2 = edge type dictionary)
+    CatGetOrCreate(u8, u8),
+    CatCreateIndex(u8, u8),
+    CatDropIndex(u8),
+    CatRead(u8),
+    // --- QueryCache --- (which cache: 0 parsed / 1 optimized, key)
+    CachePut(u8, u8),
+    CacheGet(u8, u8),
+    CacheInvalidate(u8),
+    CacheClear,
+    CacheStats,
+    // --- WalManager ---
+    WalLog,
+    WalSync,
+    WalRotate,
 }
 
 impl SOp {
@@ -93,10 +114,22 @@ impl SOp {
             SOp::BufAlloc(_) => "try_allocate",
             SOp::BufRelease => "grant_drop",
             SOp::BufResize(_) => "grant_resize",
+            SOp::CatGetOrCreate(..) => "get_or_create",
+            SOp::CatCreateIndex(..) => "create_index",
+            SOp::CatDropIndex(_) => "drop_index",
+            SOp::CatRead(_) => "indexes_for_label",
+            SOp::CachePut(..) => "cache_put",
+            SOp::CacheGet(..) => "cache_get",
+            SOp::CacheInvalidate(_) => "cache_invalidate",
+            SOp::CacheClear => "cache_clear",
+            SOp::CacheStats => "cache_stats",
+            SOp::WalLog => "wal_log",
+            SOp::WalSync => "wal_sync",
+            SOp::WalRotate => "wal_rotate",
         }
     }
     fn is_read(&self) -> bool {
-        matches!(self, SOp::ScanLabel(_) | SOp::FindProp(..) | SOp::RdfFind(_) | SOp::ComputeStats | SOp::TxGc)
+        matches!(self, SOp::ScanLabel(_) | SOp::FindProp(..) | SOp::RdfFind(_) | SOp::ComputeStats | SOp::TxGc | SOp::CatRead(_) | SOp::CacheStats)
     }
 }
 
@@ -141,6 +174,21 @@ enum World {
         max_seen: AtomicU64,
         hard_limit: usize,
     },
+    Cat { cat: grafeo_engine::Catalog },
+    Cache { cache: grafeo_engine::query::QueryCache, plans: Vec<grafeo_engine::query::LogicalPlan>, over: AtomicU64 },
+    Wal { wal: grafeo_adapters::storage::wal::WalManager, dir: std::path::PathBuf },
+}
+
+const CAT_NAMES: [&str; 3] = ["X", "Y", "Z"];
+const CACHE_CAP: usize = 2;
+static WAL_DIR_SEQ: AtomicU64 = AtomicU64::new(0);
+
+fn cache_key(k: u8) -> grafeo_engine::query::CacheKey {
+    grafeo_engine::query::CacheKey::new(format!("MATCH (n:K{}) RETURN n", k % 3), grafeo_engine::query::QueryLanguage::Gql)
+}
+
+fn wal_record(t: usize, j: usize) -> grafeo_adapters::storage::wal::WalRecord {
+    grafeo_adapters::storage::wal::WalRecord::CreateNode { id: NodeId::new((t * 16 + j) as u64), labels: vec![format!("T{t}")] }
 }
 
 fn setup(sc: &Scenario) -> World {
@@ -180,6 +228,42 @@ fn setup(sc: &Scenario) -> World {
                 max_seen: AtomicU64::new(0),
                 hard_limit: 95,
             }
+        }
+        Family::Catalog => {
+            let cat = grafeo_engine::Catalog::new();
+            // labels / keys the index operations refer to exist beforehand
+            for i in 0..2 {
+                cat.get_or_create_label(&format!("L{i}"));
+                cat.get_or_create_property_key(&format!("p{i}"));
+            }
+            for i in 0..sc.pre_edges.min(2) {
+                let (l, k) = (cat.get_label_id(&format!("L{i}")).unwrap(), cat.get_property_key_id("p0").unwrap());
+                cat.create_index(l, k, grafeo_engine::IndexType::Hash);
+            }
+            World::Cat { cat }
+        }
+        Family::Cache => {
+            let plans = (0..6)
+                .map(|i| grafeo_engine::query::translate_gql(&format!("MATCH (n:P{i}) RETURN n")).expect("plan"))
+                .collect();
+            World::Cache { cache: grafeo_engine::query::QueryCache::new(CACHE_CAP), plans, over: AtomicU64::new(0) }
+        }
+        Family::Wal => {
+            let dir = std::path::PathBuf::from(format!("/dev/shm/grafeo-sim/{}/schedwal-{}", std::process::id(), WAL_DIR_SEQ.fetch_add(1, Ordering::SeqCst)));
+            let _ = std::fs::remove_dir_all(&dir);
+            std::fs::create_dir_all(&dir).expect("wal dir");
+            let cfg = grafeo_adapters::storage::wal::WalConfig {
+                durability: grafeo_adapters::storage::wal::DurabilityMode::NoSync,
+                // a record of this workload frames to ~14 bytes: rotation after every
+                // `pre_nodes` records
+                max_log_size: (sc.pre_nodes as u64) * 14,
+                compression: false,
+            };
+            let wal = grafeo_adapters::storage::wal::WalManager::with_config(&dir, cfg).expect("wal open");
+            for i in 0..sc.pre_edges {
+                wal.log(&wal_record(15, i)).expect("pre log");
+            }
+            World::Wal { wal, dir }
         }
     }
 }
@@ -305,6 +389,67 @@ fn apply(w: &World, t: usize, j: usize, op: &SOp, created: &std::sync::Mutex<BTr
             max_seen.fetch_max(mgr.allocated() as u64, Ordering::SeqCst);
             r
         }
+        (World::Cat { cat }, SOp::CatGetOrCreate(dict, n)) => {
+            let name = CAT_NAMES[*n as usize % 3];
+            match dict % 3 {
+                0 => format!("lid:{}", cat.get_or_create_label(name).as_u32()),
+                1 => format!("pid:{}", cat.get_or_create_property_key(name).as_u32()),
+                _ => format!("tid:{}", cat.get_or_create_edge_type(name).as_u32()),
+            }
+        }
+        (World::Cat { cat }, SOp::CatCreateIndex(l, k)) => {
+            let (l, k) = (cat.get_label_id(&format!("L{}", l % 2)).unwrap(), cat.get_property_key_id(&format!("p{}", k % 2)).unwrap());
+            format!("iid:{}", cat.create_index(l, k, grafeo_engine::IndexType::Hash).as_u32())
+        }
+        (World::Cat { cat }, SOp::CatDropIndex(i)) => format!("{}", cat.drop_index(grafeo_common::types::IndexId::new(u32::from(*i % 4)))),
+        (World::Cat { cat }, SOp::CatRead(l)) => {
+            let _ = cat.indexes_for_label(cat.get_label_id(&format!("L{}", l % 2)).unwrap());
+            "read".into()
+        }
+        (World::Cache { cache, plans, over }, op @ (SOp::CachePut(..) | SOp::CacheGet(..) | SOp::CacheInvalidate(_) | SOp::CacheClear | SOp::CacheStats)) => {
+            let plan_name = |p: &grafeo_engine::query::LogicalPlan| -> String {
+                let d = format!("{p:?}");
+                plans.iter().position(|q| format!("{q:?}") == d).map_or("unknown-plan".to_string(), |i| format!("plan{i}"))
+            };
+            let r = match op {
+                SOp::CachePut(which, k) => {
+                    // the value identifies the writer: thread parity + key
+                    let plan = plans[(usize::from(*k % 3) * 2 + t % 2) % plans.len()].clone();
+                    if which % 2 == 0 { cache.put_parsed(cache_key(*k), plan) } else { cache.put_optimized(cache_key(*k), plan) }
+                    "()".to_string()
+                }
+                SOp::CacheGet(which, k) => {
+                    let r = if which % 2 == 0 { cache.get_parsed(&cache_key(*k)) } else { cache.get_optimized(&cache_key(*k)) };
+                    r.map_or("miss".to_string(), |p| format!("hit:{}", plan_name(&p)))
+                }
+                SOp::CacheInvalidate(k) => {
+                    cache.invalidate(&cache_key(*k));
+                    "()".to_string()
+                }
+                SOp::CacheClear => {
+                    cache.clear();
+                    "()".to_string()
+                }
+                _ => "read".to_string(),
+            };
+            let st = cache.stats();
+            if st.parsed_size > CACHE_CAP || st.optimized_size > CACHE_CAP {
+                over.fetch_add(1, Ordering::SeqCst);
+            }
+            r
+        }
+        (World::Wal { wal, .. }, SOp::WalLog) => match wal.log(&wal_record(t, j)) {
+            Ok(()) => "ok".into(),
+            Err(e) => format!("err({})", e.to_string().replace(':', ";")),
+        },
+        (World::Wal { wal, .. }, SOp::WalSync) => match wal.sync() {
+            Ok(()) => "ok".into(),
+            Err(e) => format!("err({})", e.to_string().replace(':', ";")),
+        },
+        (World::Wal { wal, .. }, SOp::WalRotate) => match wal.rotate() {
+            Ok(()) => "ok".into(),
+            Err(e) => format!("err({})", e.to_string().replace(':', ";")),
+        },
         _ => "n/a".into(),
     }
 }
@@ -529,6 +674,132 @@ fn final_dump(w: &World, created: &BTreeMap<u64, String>) -> (String, Vec<(Strin
             }
             (format!("held\x1e{held}\x1fover_limit\x1e{over}\x1fafter_release\x1e{after_release}"), inv)
         }
+        World::Cat { cat } => {
+            let mut dicts = Vec::new();
+            for (dname, names, count) in [
+                ("labels", cat.all_labels(), cat.label_count()),
+                ("property_keys", cat.all_property_keys(), cat.property_key_count()),
+                ("edge_types", cat.all_edge_types(), cat.edge_type_count()),
+            ] {
+                if names.len() != count {
+                    inv.push((format!("{dname}-count-vs-enumeration"), format!("{count} vs {}", names.len())));
+                }
+                let mut seen = BTreeSet::new();
+                let mut v = Vec::new();
+                for (i, n) in names.iter().enumerate() {
+                    if !seen.insert(n.to_string()) {
+                        inv.push((format!("{dname}-name-has-two-ids"), n.to_string()));
+                    }
+                    let (by_name, by_id) = match dname {
+                        "labels" => (cat.get_label_id(n).map(|x| x.as_u32()), cat.get_label_name(grafeo_common::types::LabelId::new(i as u32)).map(|x| x.to_string())),
+                        "property_keys" => (cat.get_property_key_id(n).map(|x| x.as_u32()), cat.get_property_key_name(grafeo_common::types::PropertyKeyId::new(i as u32)).map(|x| x.to_string())),
+                        _ => (cat.get_edge_type_id(n).map(|x| x.as_u32()), cat.get_edge_type_name(grafeo_common::types::EdgeTypeId::new(i as u32)).map(|x| x.to_string())),
+                    };
+                    if by_name != Some(i as u32) || by_id.as_deref() != Some(&**n) {
+                        inv.push((format!("{dname}-name-to-id-vs-id-to-name"), format!("{n}: position {i}, by name {by_name:?}, by id {by_id:?}")));
+                    }
+                    v.push(format!("{n}={i}"));
+                }
+                dicts.push(format!("{dname}\x1e{}", v.join(" ")));
+            }
+            let mut defs = Vec::new();
+            let mut by_label: BTreeMap<u32, BTreeSet<u32>> = BTreeMap::new();
+            let mut by_lp: BTreeMap<(u32, u32), BTreeSet<u32>> = BTreeMap::new();
+            for i in 0..12u32 {
+                if let Some(d) = cat.get_index(grafeo_common::types::IndexId::new(i)) {
+                    defs.push(format!("i{i}=L{}.p{}", d.label.as_u32(), d.property_key.as_u32()));
+                    by_label.entry(d.label.as_u32()).or_default().insert(i);
+                    by_lp.entry((d.label.as_u32(), d.property_key.as_u32())).or_default().insert(i);
+                }
+            }
+            if cat.index_count() != defs.len() {
+                inv.push(("index_count-vs-definitions".into(), format!("{} vs {}", cat.index_count(), defs.len())));
+            }
+            let mut listings = Vec::new();
+            for l in 0..2u32 {
+                let got: Vec<u32> = cat.indexes_for_label(grafeo_common::types::LabelId::new(l)).iter().map(|x| x.as_u32()).collect();
+                let got_set: BTreeSet<u32> = got.iter().copied().collect();
+                if got_set.len() != got.len() || got_set != by_label.get(&l).cloned().unwrap_or_default() {
+                    inv.push(("indexes_for_label-vs-definitions".into(), format!("label {l}: listing {got:?} vs definitions {:?}", by_label.get(&l))));
+                }
+                listings.push(format!("L{l}={got_set:?}"));
+                for k in 0..2u32 {
+                    let got: Vec<u32> = cat.indexes_for_label_property(grafeo_common::types::LabelId::new(l), grafeo_common::types::PropertyKeyId::new(k)).iter().map(|x| x.as_u32()).collect();
+                    let got_set: BTreeSet<u32> = got.iter().copied().collect();
+                    if got_set.len() != got.len() || got_set != by_lp.get(&(l, k)).cloned().unwrap_or_default() {
+                        inv.push(("indexes_for_label_property-vs-definitions".into(), format!("({l},{k}): listing {got:?} vs definitions {:?}", by_lp.get(&(l, k)))));
+                    }
+                    listings.push(format!("L{l}.p{k}={got_set:?}"));
+                }
+            }
+            (format!("{}\x1findex_definitions\x1e{}\x1findex_listings\x1e{}", dicts.join("\x1f"), defs.join(" "), listings.join(" ")), inv)
+        }
+        World::Cache { cache, plans, over } => {
+            let st = cache.stats();
+            if over.load(Ordering::SeqCst) > 0 || st.parsed_size > CACHE_CAP || st.optimized_size > CACHE_CAP {
+                inv.push(("size-exceeds-capacity".into(), format!("sizes {}/{} with capacity {CACHE_CAP}", st.parsed_size, st.optimized_size)));
+            }
+            let counters = format!("{}/{}/{}/{}", st.parsed_hits, st.parsed_misses, st.optimized_hits, st.optimized_misses);
+            let mut content = Vec::new();
+            for k in 0..3u8 {
+                for which in 0..2u8 {
+                    let r = if which == 0 { cache.get_parsed(&cache_key(k)) } else { cache.get_optimized(&cache_key(k)) };
+                    let d = r.map(|p| format!("{p:?}"));
+                    let name = d.map_or("-".to_string(), |d| plans.iter().position(|q| format!("{q:?}") == d).map_or("unknown-plan".to_string(), |i| format!("plan{i}")));
+                    content.push(format!("{}{k}={name}", if which == 0 { "parsed" } else { "optimized" }));
+                }
+            }
+            (format!("counters\x1e{counters}\x1fsizes\x1e{}/{}\x1fcontent\x1e{}", st.parsed_size, st.optimized_size, content.join(" ")), inv)
+        }
+        World::Wal { wal, dir } => {
+            use grafeo_adapters::storage::wal::WalRecord;
+            let sync = wal.sync().map_err(|e| e.to_string());
+            let count = wal.record_count();
+            let mut files: Vec<(u64, std::path::PathBuf)> = std::fs::read_dir(dir)
+                .map(|rd| {
+                    rd.filter_map(|e| e.ok())
+                        .filter_map(|e| {
+                            let n = e.file_name().to_string_lossy().to_string();
+                            n.strip_prefix("wal_").and_then(|x| x.strip_suffix(".log")).and_then(|x| x.parse::<u64>().ok()).map(|q| (q, e.path()))
+                        })
+                        .collect()
+                })
+                .unwrap_or_default();
+            files.sort();
+            let mut order = Vec::new();
+            let mut seen = BTreeSet::new();
+            for (q, p) in &files {
+                let bytes = std::fs::read(p).unwrap_or_default();
+                let ends = crate::eng_disk::valid_record_ends(&bytes, 0);
+                if ends.last().copied().unwrap_or(0) != bytes.len() {
+                    inv.push(("file-does-not-decode-to-its-end".into(), format!("file {q}: {} of {} bytes are valid records", ends.last().copied().unwrap_or(0), bytes.len())));
+                }
+                let mut pos = 0usize;
+                for end in ends {
+                    let payload = &bytes[pos + 4..end - 4];
+                    pos = end;
+                    match bincode::serde::decode_from_slice::<WalRecord, _>(payload, bincode::config::standard()) {
+                        Ok((WalRecord::CreateNode { id, .. }, _)) => {
+                            let (t, j) = ((id.as_u64() / 16) as usize, (id.as_u64() % 16) as usize);
+                            let name = if t == 15 { format!("P{j}") } else { format!("R{t}.{j}") };
+                            if !seen.insert(name.clone()) {
+                                inv.push(("record-logged-twice".into(), name.clone()));
+                            }
+                            order.push(name);
+                        }
+                        other => inv.push(("foreign-record".into(), format!("{other:?}"))),
+                    }
+                }
+            }
+            let _ = std::fs::remove_dir_all(dir);
+            if let Err(e) = &sync {
+                inv.push(("final-sync-failed".into(), e.clone()));
+            }
+            if count as usize != order.len() {
+                inv.push(("record_count-vs-files".into(), format!("record_count() {count} vs {} records in the files", order.len())));
+            }
+            (format!("records_in_recovery_order\x1e{}\x1frecord_count\x1e{count}", order.join(" ")), inv)
+        }
     }
 }
 
@@ -730,6 +1001,9 @@ fn judge(sc: &Scenario, refs: &BTreeSet<String>, ex: &ExecOutcome, prop: &str) -
         Family::Rdf => "rdf",
         Family::Txm => "txm",
         Family::Buffer => "buffer",
+        Family::Catalog => "catalog",
+        Family::Cache => "cache",
+        Family::Wal => "wal",
     };
     let mut out = Vec::new();
     if let Some(msg) = &ex.crashed {
@@ -743,17 +1017,17 @@ fn judge(sc: &Scenario, refs: &BTreeSet<String>, ex: &ExecOutcome, prop: &str) -
         out.push((format!("{prop} | {fam} | {class}"), msg.clone()));
         return out;
     }
-    if sc.family == Family::Buffer {
+    if matches!(sc.family, Family::Buffer | Family::Catalog | Family::Cache | Family::Wal) {
         for (n, d) in &ex.invariants {
             out.push((format!("{prop} | {fam} | {n}"), d.clone()));
         }
     }
     match sc.family {
-        Family::Lpg | Family::LpgCore | Family::Rdf | Family::Buffer => {
+        Family::Lpg | Family::LpgCore | Family::Rdf | Family::Buffer | Family::Catalog | Family::Cache | Family::Wal => {
             // ids unique
             let mut ids: BTreeSet<&String> = BTreeSet::new();
             for r in ex.results.values() {
-                if (r.starts_with("id:") || r.starts_with("eid:")) && !ids.insert(r) {
+                if (r.starts_with("id:") || r.starts_with("eid:") || r.starts_with("iid:")) && !ids.insert(r) {
                     out.push((format!("{prop} | {fam} | duplicate-id"), r.clone()));
                 }
             }
@@ -881,6 +1155,28 @@ pub fn generate(rng: &mut Prng, family: Family) -> Scenario {
                     0 | 1 | 2 => SOp::BufAlloc(*rng.pick(&[30usize, 40, 50, 60, 95])),
                     3 | 4 => SOp::BufRelease,
                     _ => SOp::BufResize(*rng.pick(&[10usize, 50, 90])),
+                },
+                Family::Catalog => match rng.below(10) {
+                    0..=3 => SOp::CatGetOrCreate(if rng.chance(2, 3) { 0 } else { rng.below(3) as u8 }, if rng.chance(2, 3) { 0 } else { rng.below(3) as u8 }),
+                    4..=6 => SOp::CatCreateIndex(rng.below(2) as u8, rng.below(2) as u8),
+                    7 | 8 => SOp::CatDropIndex(rng.below(4) as u8),
+                    _ => SOp::CatRead(rng.below(2) as u8),
+                },
+                Family::Cache => {
+                    let k = if rng.chance(1, 2) { 0 } else { rng.below(3) as u8 };
+                    let which = if rng.chance(2, 3) { 0 } else { 1 };
+                    match rng.below(10) {
+                        0..=3 => SOp::CachePut(which, k),
+                        4..=6 => SOp::CacheGet(which, k),
+                        7 => SOp::CacheInvalidate(k),
+                        8 => SOp::CacheClear,
+                        _ => SOp::CacheStats,
+                    }
+                }
+                Family::Wal => match rng.below(8) {
+                    0..=4 => SOp::WalLog,
+                    5 => SOp::WalSync,
+                    _ => SOp::WalRotate,
                 },
                 Family::Txm => {
                     if rng.chance(1, 6) {
